@@ -7,7 +7,7 @@ from hypothesis import strategies as st
 
 from props import c04
 from vlib import gen_tables, model_validio
-from vlib.runner import norm_message
+from vlib.runner import norm_message, reused_dir
 
 from cutplace import errors, validio
 
@@ -57,7 +57,7 @@ def _read(spec, rows, tmpdir, via, mode, name):
 def check_case(sub, case):
     spec, rows, via = case["spec"], case["rows"], case["via"]
     fmt_name = spec["fmt"]["kind"]
-    tmpdir = tempfile.mkdtemp(prefix="c06-")
+    tmpdir = reused_dir("c06")
     try:
         try:
             y_items, y_end = _read(spec, rows, tmpdir, via, "yield", "data")
@@ -260,7 +260,7 @@ def _inject(spec, rows, fault, k, fraction, tmpdir):
 def check_fault(sub, case):
     spec, rows, fault, k = case["spec"], case["rows"], case["fault"], case["k"]
     fmt_name = spec["fmt"]["format"]
-    tmpdir = tempfile.mkdtemp(prefix="c06f-")
+    tmpdir = reused_dir("c06f")
     try:
         try:
             base_items, _ = _read(spec, rows, tmpdir, "path", "yield", "base")
